@@ -824,12 +824,14 @@ def extract_var(var: str) -> tuple:
 
 def get_unique_label(label: str, labels: dict) -> tp.Tuple[str, dict]:
     if label in labels:
-        n = labels[label]
-        if n == 0:
-            label_new = f"{label}_num1"
-        else:
-            label_new = f"{label}_num{n+1}"
-        labels[label] += 1
+        n = labels[label] + 1
+        label_new = f"{label}_num{n}"
+        while label_new in labels:
+            # the derived label is taken already (e.g. by a template that is itself called `<label>_num1`)
+            n += 1
+            label_new = f"{label}_num{n}"
+        labels[label] = n
+        labels[label_new] = 0
     else:
         label_new = label
         labels[label] = 0
